@@ -253,6 +253,45 @@ static std::string op_cbcq(strs const &w)
 	return "cbc "+w[1]+" "+w[2]+" "+w[3]+" "+t+(ops.empty()?"":" "+join(ops));
 }
 
+// `cbcuse <bits> <key|none> <iv|none>`: set_key / set_iv when given, then encrypt one block
+static std::string op_cbcuse(strs const &w)
+{
+	if(w.size()!=4) return "bad-op";
+	unsigned bits=atoi(w[1].c_str());
+	if(bits!=128 && bits!=192 && bits!=256) return "bad-op";
+	std::string keyb,iv;
+	bool has_key = w[2]!="none", has_iv = w[3]!="none";
+	if(has_key && !vh::unhex(w[2],keyb)) return "bad-op";
+	if(has_iv && !vh::unhex(w[3],iv)) return "bad-op";
+	std::unique_ptr<crypto::cbc> c=crypto::cbc::create(bits==128?"aes":bits==192?"AES-192":"aes256");
+	if(!c.get()) return "no-such-cipher";
+	try {
+		if(has_key) c->set_key(crypto::key(keyb.data(),keyb.size()));
+		if(has_iv) {
+			std::unique_ptr<char[]> b(new char[iv.size()+1]);
+			memcpy(b.get(),iv.data(),iv.size());
+			c->set_iv(b.get(),iv.size());
+		}
+		char in[16]={0},out[16];
+		c->encrypt(in,out,16);
+		c->decrypt(out,in,16);
+		for(int i=0;i<16;i++) if(in[i]!=0) return "round-trip-failed";
+		return "ok";
+	}
+	catch(booster::invalid_argument const &e) {
+		std::string m=e.what();
+		if(m.find("Invalid key size")!=std::string::npos) return "err-key-size";
+		if(m.find("Invalid IV size")!=std::string::npos) return "err-iv-size";
+		return "other-error";
+	}
+	catch(booster::runtime_error const &e) {
+		std::string m=e.what();
+		if(m.find("without key")!=std::string::npos) return "err-no-key";
+		if(m.find("without initial vector")!=std::string::npos) return "err-no-iv";
+		return "other-error";
+	}
+}
+
 static std::string key_result(crypto::key const &k) { return "ok "+vh::hex(k.data(),k.size()); }
 
 static std::string op_key(strs const &w)
@@ -358,6 +397,7 @@ int main(int argc,char **argv)
 		if(w[0]=="hmac") return op_hmac(w,ref,false);
 		if(w[0]=="hmac2") return op_hmac(w,ref,true);
 		if(w[0]=="cbc") return op_cbc(w,ref);
+		if(w[0]=="cbcuse") return ref ? "n/a" : op_cbcuse(w);
 		if(w[0]=="key") return ref ? "n/a" : op_key(w);
 		if(w[0]=="keyfile") return ref ? "n/a" : op_keyfile(w);
 		if(w[0]=="big") return op_big(w,ref);
